@@ -81,3 +81,47 @@ func runTimestampRegression() string {
 	}
 	return ""
 }
+
+var recDefaultSize = ev.New("C04", "regression-default-window",
+	"plain regression (bypasses rapid): NewUDPServer / NewUDPClient created with filterSize 0 (the omitted value) must behave as the documented default "+
+		"window of 256: after id 300, ids 299, 45 (=300-255) are accepted once, 44 (=300-256) is refused, duplicates are refused; both directions").
+	Require("server-default-256", "client-default-256")
+
+// TestRegressionDefaultWindowSize pins that an omitted sliding-window size means 256, not 0.
+func TestRegressionDefaultWindowSize(t *testing.T) {
+	var violation string
+	synctest.Test(t, func(t *testing.T) { violation = runDefaultWindowRegression() })
+	if violation != "" {
+		t.Fatal(violation)
+	}
+	recDefaultSize.Case("default", true, "server-default-256", "client-default-256")
+}
+
+func runDefaultWindowRegression() string {
+	c := pcfg{KeyLen: 16, Seed: 11}.norm() // Size 0 -> Default
+	if !c.Default || c.sizeArg() != 0 {
+		return "SIG=C04/harness default configuration class broken"
+	}
+	u, err := newCliUniverse(c, 1)
+	if err != nil {
+		return "SIG=C04/harness " + err.Error()
+	}
+	st := &serverTable{e: u.e, table: map[uint64]zerocopy.ServerUnpacker{}}
+	ssid := uint64(0x1122334455667788)
+	now := uint64(time.Now().Unix())
+	steps := []struct {
+		id     uint64
+		accept bool
+	}{{5, true}, {3, true}, {3, false}, {300, true}, {299, true}, {45, true}, {44, false}, {45, false}, {301, true}, {45, false}, {46, true}}
+	for _, s := range steps {
+		cw := u.e.keys.EncodeClient(ssudp.ClientPacket{SID: u.e.csid, PID: s.id, Type: ssudp.TypeClient, TS: now, Addr: pktTarget.Wire(), Payload: []byte{1}}, nil)
+		if ok, _, _, _, err := st.present(cw); ok != s.accept {
+			return fmt.Sprintf("SIG=C04/pkt-default-window server created with filterSize 0: id %d accepted=%v (%s), want %v (window 256)", s.id, ok, errString(err), s.accept)
+		}
+		sw := u.e.keys.EncodeServer(ssudp.ServerPacket{SID: ssid, PID: s.id, Type: ssudp.TypeServer, TS: now, CSID: u.e.csid, Addr: pktTarget.Wire(), Payload: []byte{1}}, nil)
+		if ok, _, _, err := u.present(sw); ok != s.accept {
+			return fmt.Sprintf("SIG=C04/pkt-default-window client created with filterSize 0: id %d accepted=%v (%s), want %v (window 256)", s.id, ok, errString(err), s.accept)
+		}
+	}
+	return ""
+}
